@@ -13,4 +13,4 @@ def extra(r):
 
 def run(v, tier, seed, replay):
     seqcheck.run(v, tier, seed, replay, "C02", ["C02"], tree_oracles=["no_panic", "tree", "ids", "contexts", "exactly_once"], knobs=knobs, extra_cases=extra,
-                 n_quick=(700, 100), n_thorough=(80000, 5000))
+                 n_quick=(2100, 300), n_thorough=(80000, 5000))
